@@ -135,13 +135,14 @@ def diff_features(orig, dec):
             and all(orig.tags[k] == dec.tags[k] or (orig.tags[k] == "_none" and dec.tags[k] is None) for k in orig.tags)
         )
     if "fields" in slots:
+        def same(x, y):  # strict: equal AND same sign of zero
+            return strict_fields_equal({"v": x}, {"v": y})
+
+        differing = [k for k in orig.fields if k in dec.fields and not same(orig.fields[k], dec.fields[k])]
         f["all_diff_fields_are_big_ints"] = (
             orig.fields.keys() == dec.fields.keys()
-            and all(
-                (orig.fields[k] is dec.fields[k] or orig.fields[k] == dec.fields[k])
-                or (isinstance(orig.fields[k], int) and abs(orig.fields[k]) > BIG)
-                for k in orig.fields
-            )
+            and bool(differing)
+            and all(isinstance(orig.fields[k], int) and not isinstance(orig.fields[k], bool) and abs(orig.fields[k]) > BIG for k in differing)
         )
     return f
 
@@ -186,10 +187,10 @@ class Injectivity:
                     for k in set(orig.tags) | set(other.tags)
                 ) and orig.tags.keys() == other.tags.keys()
             if f.get("diff_slots") == ["fields"]:
-                f2["all_diff_fields_are_big_ints"] = orig.fields.keys() == other.fields.keys() and all(
-                    orig.fields[k] == other.fields[k] or (orig.fields[k] is None and other.fields[k] is None)
-                    or any(isinstance(v, int) and abs(v) > BIG for v in (orig.fields[k], other.fields[k]))
-                    for k in orig.fields
+                differing = [k for k in orig.fields if k in other.fields and not strict_fields_equal({"v": orig.fields[k]}, {"v": other.fields[k]})]
+                f2["all_diff_fields_are_big_ints"] = orig.fields.keys() == other.fields.keys() and bool(differing) and all(
+                    any(isinstance(v, int) and not isinstance(v, bool) and abs(v) > BIG for v in (orig.fields[k], other.fields[k]))
+                    for k in differing
                 )
             violate_per_slot(
                 res, "not-injective",
